@@ -93,11 +93,13 @@ def run(ctx):
     rnd = random.Random(ctx.seed)
     if quick:
         plan = [('c12g', 1, 1, 0, None, None, ['plain', 'all', 'plain+ac'], 400),
+                ('c12b', 1, 1, 0, None, None, ['plain'], 50),
                 ('c12h', 3, 1, 1, None, None, ['plain', 'udf', 'jol+ac'], 3300),
                 ('c12s', 8, 2, 2, 25, 9, ['plain', 'all'], 150)]
     else:
         plan = [('c12G', 1, 1, 0, None, None, ['plain', 'all+ac'], 2500),
                 ('c12g', 1, 1, 0, None, None, ['plain', 'jol', 'rr', 'udf', 'all', 'plain+ac', 'all+ac'], 400),
+                ('c12b', 1, 1, 0, None, None, ['plain', 'all'], 50),
                 ('c12h', 4, 1, 1, None, None, ['plain', 'udf', 'jol+ac', 'all'], 12000),
                 ('c12s', 12, 2, 2, 300, 13, ['plain', 'all', 'rr+ac'], 3000)]
     stats_list = []
